@@ -1,7 +1,7 @@
 """Property -> rule set, with the clause split that the manifest and the evidence repeat."""
 from __future__ import annotations
 
-from .rules import tables, config, luts
+from .rules import tables, config, luts, state, ownership
 
 RULES = {
     'H1': tables.rule_H1,
@@ -10,6 +10,10 @@ RULES = {
     'H6': tables.rule_H6,
     'F1': config.rule_F1, 'F2': config.rule_F2, 'F3': config.rule_F3, 'F4': config.rule_F4,
     'G1': config.rule_G1, 'N4': config.rule_N4,
+    'J1': state.rule_J1, 'J2': state.rule_J2, 'M': state.rule_M, 'D1': state.rule_D1, 'D3': state.rule_D3,
+    'HASH': state.rule_HASH, 'N3': state.rule_N3,
+    'A1': ownership.rule_A1, 'A3': ownership.rule_A3, 'A4': ownership.rule_A4, 'A9': ownership.rule_A9,
+    'A2': ownership.rule_A2, 'A5': ownership.rule_A5, 'A6': ownership.rule_A6, 'A7': ownership.rule_A7, 'A8': ownership.rule_A8,
     'H5a': luts.rule_H5a, 'H5b': luts.rule_H5b, 'H5c': luts.rule_H5c,
 }
 
